@@ -274,6 +274,7 @@ def label_clauses(ctx, st, pt, p):
 def run(ctx):
     st = State()
     pt = install(ctx, st)
+    ctx.enable_disturb(pt, 0.03)     # other legitimate library calls interleaved between cases (vf.gen.disturb)
     w = {'int': 2, 'float': 2, 'formula': 3, 'unimod-name': 3, 'unimod-acc': 1}
     cfg_s = gp.GenCfg(min_len=1, max_len=20, letters=LETTERS, weights=w, static_weights=w, p_static=1.0,
                       p_static_term=0.45, max_static_rules=3, p_isotope=0.2, labels=LABELS, p_interval=0.1,
